@@ -31,6 +31,9 @@ impl AtomicUsize {
     pub fn fetch_add(&self, v: usize, o: Ordering) -> usize { unimplemented!() }
     #[verifier::external_body]
     pub fn fetch_sub(&self, v: usize, o: Ordering) -> usize { unimplemented!() }
+    // fetch_update(.., |count| Some(count.saturating_sub(n)))   (rule R-atom): a saturating decrement
+    #[verifier::external_body]
+    pub fn saturating_dec(&self, n: u64) { unimplemented!() }
 }
 // a record's absolute expiry (0 = none); stable within one call (A3)
 #[verifier::external_body]
@@ -224,6 +227,15 @@ pub struct Statistics {
     pub record_count: AtomicU32,
     pub memory_usage: AtomicUsize,
     pub keys_with_ttl: AtomicUsize,
+    pub ttl_expired_active: AtomicU64Stat,
+    pub ttl_expired_lazy: AtomicU64Stat,
+}
+// statistics-only u64 counters
+#[verifier::external_body]
+pub struct AtomicU64Stat { _p: () }
+impl AtomicU64Stat {
+    #[verifier::external_body]
+    pub fn fetch_add(&self, v: u64, o: Ordering) -> u64 { unimplemented!() }
 }
 impl Statistics {
     #[verifier::external_body]
@@ -323,8 +335,6 @@ impl FeoxStore {
     pub fn resolve_timestamp(&self, key: &[u8], timestamp: Option<u64>) -> (u64, bool) { unimplemented!() }
     #[verifier::external_body]
     pub fn remove_cached(&self, key: &[u8], record: &Arc<Record>) { unimplemented!() }
-    #[verifier::external_body]
-    pub fn note_expired_record(&self, record_size: usize) { unimplemented!() }
     #[verifier::external_body]
     pub fn insert_into_tree(&self, key: Vec<u8>, record: Arc<Record>) { unimplemented!() }
     #[verifier::external_body]
